@@ -1,56 +1,43 @@
 #!/usr/bin/env python3
-"""Copies every confirmed seeded change into /verif/seeded/<name>/ (patch.diff, demo.py, notes.txt, meta.json) and prints
-the markdown table for DESIGN.md 7.1.  Input: /tmp/wt/res{A,B,C}.json written by bin/seedeval.py."""
-import glob, json, os, shutil
+"""Writes seeded/<name>/meta.json from the final evaluation (bin/seedfinal.py results) and prints the DESIGN.md 7.1 table."""
+import glob, json, os
 
 res = {}
-for f in sorted(glob.glob("/tmp/wt/res*.json")) + sorted(glob.glob("/tmp/wt2/res*.json")):
+for f in sorted(glob.glob("/tmp/seedfinal_*.json")):
     res.update(json.load(open(f)))
 first = {}
-for f in ("/verif/seeded/first_round.json", "/verif/seeded/second_round_first_outcome.json"):
-    if os.path.exists(f):
-        first.update(json.load(open(f)))
-tests = json.load(open("/tmp/wt/seedtests.json"))
-rejected = []
+for f in ("first_round.json", "second_round_first_outcome.json", "third_round_first_outcome.json"):
+    p = os.path.join("/verif/seeded", f)
+    if os.path.exists(p):
+        first.update(json.load(open(p)))
 rows = []
 for name in sorted(res):
     r = res[name]
     pid = name.split("_")[0]
-    sd = f"/tmp/wt/{pid}/_seed/{name}" if os.path.isdir(f"/tmp/wt/{pid}/_seed/{name}") else f"/tmp/wt2/{pid}/_seed/{name}"
-    tr = tests.get(name, {})
-    ok = tr.get("demo_clean") == 0 and tr.get("demo_patched") not in (0, None) and tr.get("tests", "").startswith("3 failed, 129 passed") and not tr.get("extra_failures")
-    if not ok:
-        rejected.append((name, tr.get("tests"), tr.get("extra_failures")))
-        continue
-    r["tests"] = tr["tests"] + " (suite run with PYTHONPATH=<scratch worktree>/src)"
-    r["demo_clean"], r["demo_patched"] = tr["demo_clean"], tr["demo_patched"]
     dst = f"/verif/seeded/{name}"
-    os.makedirs(dst, exist_ok=True)
-    for fn in ("patch.diff", "demo.py", "notes.txt"):
-        if os.path.exists(os.path.join(sd, fn)):
-            shutil.copy(os.path.join(sd, fn), os.path.join(dst, fn))
-    notes = open(os.path.join(sd, "notes.txt")).read().strip() if os.path.exists(os.path.join(sd, "notes.txt")) else ""
+    ok = r.get("demo_clean") == 0 and r.get("demo_patched") not in (0, None) and r.get("tests", "").startswith("3 failed, 129 passed")
+    assert ok, (name, r)
+    notes = open(os.path.join(dst, "notes.txt")).read().strip() if os.path.exists(os.path.join(dst, "notes.txt")) else ""
     caught = {k: v for k, v in r["checks"].items() if v["exit"] == 1}
     meta = {
         "seed": name,
+        "round": 1 if name[-1] in "12" else (2 if name[-1] in "34" else 3),
         "breaks_property": pid,
         "needs_to_manifest": notes,
-        "confirmed_by": {"command": "bin/seedtests.py + bin/seedeval.py in scratch worktrees outside /repo and /verif: demo.py on the clean tree, git apply patch.diff, full pytest suite against the worktree's own sources (PYTHONPATH=<worktree>/src), demo.py again; then ./check <ID> with JASM_REPO=<worktree>",
-                         "demo_exit_clean": r["demo_clean"], "demo_exit_patched": r["demo_patched"], "test_suite_with_patch": r["tests"]},
+        "confirmed_by": {
+            "command": "bin/seedfinal.py in a scratch worktree outside /repo and /verif: demo.py on the clean tree, git apply patch.diff, full pytest suite against the worktree's own sources (PYTHONPATH=<worktree>/src), demo.py again; then ./check <ID> (quick tier) with JASM_REPO=<worktree>",
+            "demo_exit_clean": r["demo_clean"], "demo_exit_patched": r["demo_patched"], "test_suite_with_patch": r["tests"]},
         "checks_run_quick_tier": {k: {"exit": v["exit"], "violation_keys": v["keys"]} for k, v in r["checks"].items()},
         "detected_by": sorted(caught),
-        "detected_in_first_round": first.get(name),
+        "first_run_outcome": first.get(name),
     }
     json.dump(meta, open(os.path.join(dst, "meta.json"), "w"), indent=1)
-    own = r["checks"].get(pid, {})
-    rows.append((name, notes.splitlines()[0][:110] if notes else "", ", ".join(f"{k} ({'; '.join(v['keys'][:2])})" for k, v in caught.items()) or "—", first.get(name, "")))
-print("| seed | change (first line of the agent's note) | caught by (quick tier; first keys) | first round |")
+    line = notes.replace("\n", " ")
+    for pre in ("Change:", "CHANGE:", "Change -", "What:"):
+        if line.startswith(pre):
+            line = line[len(pre):].strip()
+    rows.append((name, line[:120], ", ".join(f"{k} ({'; '.join(v['keys'][:2])})" for k, v in caught.items()) or "—", first.get(name, "")))
+print("| seed | change (start of the agent's note) | caught by (final checks, quick tier; first keys) | outcome of the first run against the then-current checks |")
 print("|---|---|---|---|")
 for row in rows:
     print("| " + " | ".join(str(x).replace("|", "\\|") for x in row) + " |")
-
-print()
-print("rejected (the change breaks the repository's own tests when the suite really imports the changed sources):")
-for r in rejected:
-    print("  ", r)
-json.dump({"rejected": rejected}, open("/verif/seeded/rejected.json", "w"), indent=1)
